@@ -251,8 +251,9 @@ class GMRES:
                 # The residual is just the last element of $\beta$ vector (see Wikipedia) since $y$ is found exactly.
                 error = np.abs(self.e1[k + 1]) / self.b_norm
                 self.total_error[-1].append(error)
-                if error < self.res and k >= self.N_min:
-                    converged = True
+                if self.breakdown or (error < self.res and k >= self.N_min):
+                    # after a breakdown no further Krylov vector can be generated: stop even if k < N_min
+                    converged = error < self.res
                     break
             self.total_iters.append(k + 1)
             self.backsolve(k + 1)
@@ -268,11 +269,14 @@ class GMRES:
     def arnoldi(self, k):
         # Iterative build orthogonal Krylov subspace and $H$ matrix.
         q = self.A.matvec(self.qs[-1])
+        norm_Aq = npc.norm(q)
         for i in range(k + 1):
             self.H[i, k] = npc.inner(self.qs[i], q, axes='range', do_conj=True)
             q.iadd_prefactor_other(-self.H[i, k], self.qs[i])
         self.H[k + 1, k] = npc.norm(q)
-        if self.H[k + 1, k] > 0:  # avoid warning if norm(q)==0, error=0 in that case
+        # (lucky) breakdown: the new vector vanishes up to rounding errors, i.e. the Krylov space is exhausted
+        self.breakdown = not (abs(self.H[k + 1, k]) > 100 * np.finfo(np.float64).eps * norm_Aq)
+        if not self.breakdown:
             q.iscale_prefactor(1.0 / self.H[k + 1, k])
         self.qs.append(q)
 
